@@ -1,150 +1,398 @@
 import Invoke.Lemmas.RunnerStdin
-/-! Helper lemmas about the timeout timer of the runner transition system (C14). -/
+/-! Helper lemmas about the timeout timer of the runner transition system (C14): the bookkeeping
+    invariant `TimerInv` (kill issued / kill skipped / timer disarmed early vs. timer and main-thread
+    program counters) is preserved by every step of every actor and of the environment. -/
 namespace Inv
 
 def timerFired (t : TmPc) : Bool := t = .finish || t = .done
 
+def pastWait : MainPc → Bool
+  | .poll | .pollDead _ | .sendIntr => false
+  | _ => true
+def pastSettle : MainPc → Bool
+  | .poll | .pollDead _ | .sendIntr | .settleCheck | .settleCancel => false
+  | _ => true
+def decided : MainPc → Bool
+  | .stop | .done => true
+  | _ => false
+
 structure TimerInv (s : S) : Prop where
-  kills : s.kills = (if timerFired s.tmPc then 1 else 0)
-  cancelledDone : s.tmPc = .cancelled → s.mainPc = .done
+  kills : s.kills = (if s.killIssued then 1 else 0)
+  fired : timerFired s.tmPc = (s.killIssued || s.killSkipped)
+  skippedDone : s.killSkipped = true → s.processDone = true
+  cancelled : s.tmPc = .cancelled → s.mainPc = .done ∨ s.early = true
   noneIff : s.tmPc = .none ↔ (s.hasTimer = false ∨ s.startFails = true)
-  checkHasTimer : s.mainPc = .checkTimeout → s.hasTimer = true
+  pcTimer : (s.mainPc = .settleCheck ∨ s.mainPc = .settleCancel ∨ s.mainPc = .checkTimeout) → s.hasTimer = true
+  settle : (s.mainPc = .settleCheck ∨ s.mainPc = .settleCancel) →
+    s.processDone = true ∧ s.killIssued = false ∧ s.early = false
   startFailsDone : s.startFails = true → s.mainPc = .done
-  timedOutDone : ∀ rc, s.outcome = .timedOut rc → s.tmPc = .done
+  earlyPast : s.early = true → pastSettle s.mainPc = true ∧ s.processDone = true ∧ s.killIssued = false
+  settled : s.hasTimer = true → pastSettle s.mainPc = true → s.processDone = true →
+    s.killIssued = true ∨ s.early = true
+  waitDead : s.startFails = false → pastWait s.mainPc = true → s.processDone = false → s.anyDead = true
+  check : s.mainPc = .checkTimeout → s.killIssued = false ∧ s.processDone = true
+  decidedDone : decided s.mainPc = true → s.startFails = false → s.outcome ≠ .threadExc → s.processDone = true
+  timedOutIssued : ∀ rc, s.outcome = .timedOut rc → s.killIssued = true
+  issuedTimedOut : decided s.mainPc = true → s.killIssued = true →
+    s.outcome = .threadExc ∨ ∃ rc, s.outcome = .timedOut rc
+  doneExited : s.processDone = true → s.exited = true
+  pollFin : s.mainPc = .pollDead true → s.exited = true
   late : s.killsAfterReturn ≤ s.kills
+  lateExc : 0 < s.killsAfterReturn → s.outcome = .threadExc
+  lateDone : 0 < s.killsAfterReturn → s.mainPc = .done
 
 theorem timerInv_env (s : S) (e : EnvAct) (h : TimerInv s) : TimerInv (envStep s e) := by
-  obtain ⟨h1, h2, h3, h4, h5, h6, h7⟩ := h
-  cases e <;> simp only [envStep] <;> (try split) <;> exact ⟨h1, h2, h3, h4, h5, h6, h7⟩
+  obtain ⟨h1, h2, h3, h4, h5, h6, h7, h8, h9, h10, h11, h12, h13, h14, h15, h16, h17, h18, h19, h20⟩ := h
+  cases e <;> simp only [envStep] <;> (try split) <;>
+    first
+    | exact ⟨h1, h2, h3, h4, h5, h6, h7, h8, h9, h10, h11, h12, h13, h14, h15, h16, h17, h18, h19, h20⟩
+    | (constructor <;> simp_all [S.anyDead])
 
 theorem timerInv_stdin (s : S) (h : TimerInv s) : TimerInv (stdinStep s) := by
-  obtain ⟨h1, h2, h3, h4, h5, h6, h7⟩ := h
+  obtain ⟨h1, h2, h3, h4, h5, h6, h7, h8, h9, h10, h11, h12, h13, h14, h15, h16, h17, h18, h19, h20⟩ := h
   unfold stdinStep
-  (repeat' split) <;> exact ⟨h1, h2, h3, h4, h5, h6, h7⟩
+  (repeat' split) <;> exact ⟨h1, h2, h3, h4, h5, h6, h7, h8, h9, h10, h11, h12, h13, h14, h15, h16, h17, h18, h19, h20⟩
+
+theorem readerStep_dead (n : Nat) (p : Pipe) (cap : List Chunk) : (readerStep n p .dead cap).2.1 = .dead := rfl
+
+theorem anyDead_out (s : S) (h : s.anyDead = true) : (step s .out).anyDead = true := by
+  simp only [S.anyDead, Bool.or_eq_true, decide_eq_true_eq, Bool.and_eq_true, Bool.not_eq_true'] at h ⊢
+  simp only [step]
+  rcases h with h | h
+  · left; rw [h]; rfl
+  · right; exact h
+
+theorem anyDead_err (s : S) (h : s.anyDead = true) : (step s .err).anyDead = true := by
+  simp only [step]
+  split
+  · exact h
+  · simp only [S.anyDead, Bool.or_eq_true, decide_eq_true_eq, Bool.and_eq_true, Bool.not_eq_true'] at h ⊢
+    rcases h with h | h
+    · left; exact h
+    · right; refine ⟨h.1, ?_⟩; rw [h.2]; rfl
+
+theorem timerInv_reader_out (s : S) (h : TimerInv s) : TimerInv (step s .out) := by
+  obtain ⟨h1, h2, h3, h4, h5, h6, h7, h8, h9, h10, h11, h12, h13, h14, h15, h16, h17, h18, h19, h20⟩ := h
+  exact ⟨h1, h2, h3, h4, h5, h6, h7, h8, h9, h10, fun a b c => anyDead_out s (h11 a b c), h12, h13, h14, h15, h16, h17, h18, h19, h20⟩
+
+theorem timerInv_reader_err (s : S) (h : TimerInv s) : TimerInv (step s .err) := by
+  have hd := anyDead_err s
+  obtain ⟨h1, h2, h3, h4, h5, h6, h7, h8, h9, h10, h11, h12, h13, h14, h15, h16, h17, h18, h19, h20⟩ := h
+  cases hp : s.pty with
+  | true =>
+    simp only [step, hp, if_true]
+    exact ⟨h1, h2, h3, h4, h5, h6, h7, h8, h9, h10, h11, h12, h13, h14, h15, h16, h17, h18, h19, h20⟩
+  | false =>
+    simp only [step, hp] at hd ⊢
+    exact ⟨h1, h2, h3, h4, h5, h6, h7, h8, h9, h10, fun a b c => hd (h11 a b c), h12, h13, h14, h15, h16, h17, h18, h19, h20⟩
 
 theorem killEffect_timer_frame (s : S) :
     (killEffect s).tmPc = s.tmPc ∧ (killEffect s).mainPc = s.mainPc ∧ (killEffect s).hasTimer = s.hasTimer ∧
     (killEffect s).startFails = s.startFails ∧ (killEffect s).outcome = s.outcome ∧
-    (killEffect s).kills = s.kills ∧ (killEffect s).killsAfterReturn = s.killsAfterReturn := by
+    (killEffect s).kills = s.kills ∧ (killEffect s).killsAfterReturn = s.killsAfterReturn ∧
+    (killEffect s).processDone = s.processDone ∧ (killEffect s).killIssued = s.killIssued ∧
+    (killEffect s).killSkipped = s.killSkipped ∧ (killEffect s).early = s.early ∧
+    (killEffect s).outPc = s.outPc ∧ (killEffect s).errPc = s.errPc ∧ (killEffect s).pty = s.pty ∧
+    (s.exited = true → (killEffect s).exited = true) := by
   unfold killEffect; split <;> simp
 
 theorem timerInv_timer (s : S) (h : TimerInv s) : TimerInv (timerStep s) := by
-  obtain ⟨h1, h2, h3, h4, h5, h6, h7⟩ := h
+  have h' := h
+  obtain ⟨h1, h2, h3, h4, h5, h6, h7, h8, h9, h10, h11, h12, h13, h14, h15, h16, h17, h18, h19, h20⟩ := h
   unfold timerStep
   split
-  · exact ⟨h1, h2, h3, h4, h5, h6, h7⟩
+  · exact h'
   · rename_i hht
     have hht' : s.hasTimer = true := by simpa using hht
     split
     · rename_i ha
-      refine ⟨?_, ?_, ?_, h4, h5, ?_, h7⟩
-      · simpa [timerFired, ha] using h1
-      · intro hc; cases hc
-      · have := h3; simp [ha] at this ⊢; exact this
-      · intro rc hrc; have := h6 rc hrc; simp [ha] at this
+      constructor <;> simp_all [timerFired, S.anyDead]
     · rename_i hk
-      obtain ⟨k1, k2, k3, k4, k5, k6, k7⟩ := killEffect_timer_frame s
-      refine ⟨?_, ?_, ?_, ?_, ?_, ?_, ?_⟩
-      · simp [timerFired, h1, hk]
-      · intro hc; cases hc
-      · have := h3; simp [hk] at this; simp [k3, k4]; exact this
-      · simpa [k2, k3] using h4
-      · simpa [k2, k4] using h5
-      · intro rc hrc; simp only [k5] at hrc; have := h6 rc hrc; simp [hk] at this
-      · simp only [lateKill]; split <;> omega
+      split
+      · rename_i hpd
+        constructor <;> simp_all [timerFired, S.anyDead]
+      · rename_i hpd
+        obtain ⟨k1, k2, k3, k4, k5, k6, k7, k8, k9, k10, k11, k12, k13, k14, k15⟩ := killEffect_timer_frame s
+        constructor <;> simp_all [timerFired, lateKill, S.anyDead]
+        · split <;> omega
+        · intro hd
+          have hm : s.mainPc = .done := by
+            by_cases hm : s.mainPc = .done
+            · exact hm
+            · simp [hm] at hd
+          apply h13; rw [hm]; rfl
+        · intro hd
+          by_cases hm : s.mainPc = .done
+          · exact hm
+          · simp [hm] at hd
     · rename_i hf
-      refine ⟨?_, ?_, ?_, h4, h5, ?_, h7⟩
-      · simpa [timerFired, hf] using h1
-      · intro hc; cases hc
-      · have := h3; simp [hf] at this ⊢; exact this
-      · intro rc _; rfl
-    · exact ⟨h1, h2, h3, h4, h5, h6, h7⟩
+      constructor <;> simp_all [timerFired, S.anyDead]
+    · exact h'
 
 theorem decideOutcome_false_ne (s : S) (rc : Int) : decideOutcome s false ≠ .timedOut rc := by
   unfold decideOutcome; simp only [Bool.false_eq_true, if_false]; split <;> simp
 
-theorem afterJoins_timer (s : S) (h : TimerInv s) (hm : s.mainPc ≠ .done) : TimerInv (afterJoins s) := by
-  obtain ⟨h1, h2, h3, h4, h5, h6, h7⟩ := h
+theorem decideOutcome_true (s : S) : decideOutcome s true = .timedOut s.rc := by
+  simp [decideOutcome]
+
+/-- the joins are over: `s` is at `setFin` or at a `join` -/
+def joining : MainPc → Bool
+  | .setFin | .join _ _ _ => true
+  | _ => false
+
+theorem joining_facts {pc : MainPc} (h : joining pc = true) :
+    pastWait pc = true ∧ pastSettle pc = true ∧ decided pc = false ∧ pc ≠ .done ∧ pc ≠ .settleCheck ∧
+    pc ≠ .settleCancel ∧ pc ≠ .checkTimeout := by
+  cases pc <;> simp_all [joining, pastWait, pastSettle, decided]
+
+theorem afterJoins_timer (s : S) (h : TimerInv s) (hm : joining s.mainPc = true) : TimerInv (afterJoins s) := by
+  obtain ⟨h1, h2, h3, h4, h5, h6, h7, h8, h9, h10, h11, h12, h13, h14, h15, h16, h17, h18, h19, h20⟩ := h
+  obtain ⟨j1, j2, j3, j4, j5, j6, j7⟩ := joining_facts hm
   have hsf : s.startFails = false := by
     cases hx : s.startFails with
     | false => rfl
-    | true => exact absurd (h5 hx) hm
-  have hnc : s.tmPc ≠ .cancelled := fun hc => hm (h2 hc)
+    | true => exact absurd (h8 hx) j4
+  have hk0 : s.killsAfterReturn = 0 := by
+    rcases Nat.eq_zero_or_pos s.killsAfterReturn with h | h
+    · exact h
+    · exact absurd (h20 h) j4
+  have hearly : s.early = true → s.processDone = true ∧ s.killIssued = false := fun he => (h9 he).2
+  have hcanc : s.tmPc = .cancelled → s.early = true := fun hc => (h4 hc).resolve_left j4
   unfold afterJoins
   split
-  · split
-    · exact ⟨h1, fun hc => absurd hc hnc, h3, by simp, by simp [hsf], by simp, h7⟩
-    · exact ⟨h1, fun hc => absurd hc hnc, h3, by simp, by simp [hsf], by simp, h7⟩
-  · split
+  · -- a worker died
+    split
+    · refine ⟨h1, h2, h3, fun hc => Or.inr (hcanc hc), h5, by simp, by simp, by simp [hsf],
+        fun he => ⟨rfl, hearly he⟩, fun a _ c => h10 a j2 c, fun _ _ c => h11 hsf j1 c, by simp,
+        by simp, by simp, by simp, h16, by simp, h18, by simp, by simp [hk0]⟩
+    · refine ⟨h1, h2, h3, fun hc => Or.inr (hcanc hc), h5, by simp, by simp, by simp,
+        fun he => ⟨rfl, hearly he⟩, fun a _ c => h10 a j2 c, fun _ _ c => h11 hsf j1 c, by simp,
+        by simp, by simp, by simp, h16, by simp, h18, by simp, by simp [hk0]⟩
+  · rename_i hnd
+    have hpd : s.processDone = true := by
+      cases hx : s.processDone with
+      | true => rfl
+      | false => exact absurd (h11 hsf j1 hx) hnd
+    split
     · rename_i hht
-      exact ⟨h1, fun hc => absurd hc hnc, h3, fun _ => hht, by simp [hsf], h6, h7⟩
-    · refine ⟨h1, fun hc => absurd hc hnc, h3, by simp, by simp [hsf], ?_, h7⟩
-      intro rc hrc
-      exact absurd hrc (decideOutcome_false_ne s rc)
+      split
+      · rename_i hki
+        refine ⟨h1, h2, h3, fun hc => Or.inr (hcanc hc), h5, by simp, by simp, by simp [hsf],
+          fun he => ⟨rfl, hearly he⟩, fun a _ c => h10 a j2 c, fun _ _ c => h11 hsf j1 c, by simp,
+          fun _ _ _ => hpd, fun _ _ => hki, fun _ _ => Or.inr ⟨s.rc, decideOutcome_true s⟩, h16, by simp, h18,
+          by simp [hk0], by simp [hk0]⟩
+      · rename_i hki
+        refine ⟨h1, h2, h3, fun hc => Or.inr (hcanc hc), h5, fun _ => hht, by simp, by simp [hsf],
+          fun he => ⟨rfl, hearly he⟩, fun a _ c => h10 a j2 c, fun _ _ c => h11 hsf j1 c,
+          fun _ => ⟨by simpa using hki, hpd⟩, by simp [decided], h14, by simp [decided], h16, by simp, h18,
+          by simp [hk0], by simp [hk0]⟩
+    · rename_i hht
+      have hnone : s.tmPc = .none := h5.2 (Or.inl (by simpa using hht))
+      have hki : s.killIssued = false := by
+        have := h2; rw [hnone] at this; simp [timerFired] at this; exact this.1
+      refine ⟨h1, h2, h3, fun hc => Or.inr (hcanc hc), h5, by simp, by simp, by simp,
+        fun he => ⟨rfl, hearly he⟩, fun a _ c => h10 a j2 c, fun _ _ c => h11 hsf j1 c, by simp,
+        fun _ _ _ => hpd, fun rc hrc => absurd hrc (decideOutcome_false_ne s rc), by simp [hki], h16, by simp, h18,
+        by simp [hk0], by simp [hk0]⟩
 
-theorem enterJoin_timer (s : S) (i : Nat) (h : TimerInv s) (hm : s.mainPc ≠ .done) : TimerInv (enterJoin s i) := by
+theorem enterJoin_timer (s : S) (i : Nat) (h : TimerInv s) (hm : joining s.mainPc = true) :
+    TimerInv (enterJoin s i) := by
   unfold enterJoin
   split
-  · obtain ⟨h1, h2, h3, h4, h5, h6, h7⟩ := h
+  · obtain ⟨h1, h2, h3, h4, h5, h6, h7, h8, h9, h10, h11, h12, h13, h14, h15, h16, h17, h18, h19, h20⟩ := h
+    obtain ⟨j1, j2, j3, j4, j5, j6, j7⟩ := joining_facts hm
     have hsf : s.startFails = false := by
       cases hx : s.startFails with
       | false => rfl
-      | true => exact absurd (h5 hx) hm
-    exact ⟨h1, fun hc => absurd (h2 hc) hm, h3, by simp, by simp [hsf], h6, h7⟩
+      | true => exact absurd (h8 hx) j4
+    have hk0 : s.killsAfterReturn = 0 := by
+      rcases Nat.eq_zero_or_pos s.killsAfterReturn with h | h
+      · exact h
+      · exact absurd (h20 h) j4
+    exact ⟨h1, h2, h3, fun hc => Or.inr ((h4 hc).resolve_left j4), h5, by simp, by simp, by simp [hsf],
+      fun he => ⟨rfl, (h9 he).2⟩, fun a _ c => h10 a j2 c, fun _ _ c => h11 hsf j1 c, by simp,
+      by simp [decided], h14, by simp [decided], h16, by simp, h18, h19, by simp [hk0]⟩
   · exact afterJoins_timer s h hm
+
+theorem leaveWait_timer (s : S) (fin : Bool) (h : TimerInv s) (hpc : s.mainPc = .pollDead fin)
+    (hx : s.processDone = false → s.anyDead = true) : TimerInv (leaveWait s) := by
+  obtain ⟨h1, h2, h3, h4, h5, h6, h7, h8, h9, h10, h11, h12, h13, h14, h15, h16, h17, h18, h19, h20⟩ := h
+  have hd : s.mainPc ≠ .done := by rw [hpc]; simp
+  have hsf : s.startFails = false := by
+    cases hx : s.startFails with
+    | false => rfl
+    | true => exact absurd (h8 hx) hd
+  have hk0 : s.killsAfterReturn = 0 := by
+    rcases Nat.eq_zero_or_pos s.killsAfterReturn with h | h
+    · exact h
+    · exact absurd (h20 h) hd
+  have hcanc : s.tmPc = .cancelled → s.early = true := fun hc => (h4 hc).resolve_left hd
+  have hne : s.early = false := by
+    cases hx : s.early with
+    | false => rfl
+    | true => have := (h9 hx).1; simp [hpc, pastSettle] at this
+  unfold leaveWait
+  split
+  · rename_i hc
+    simp only [Bool.and_eq_true, Bool.not_eq_true'] at hc
+    exact ⟨h1, h2, h3, fun hc => Or.inr (hcanc hc), h5, fun _ => hc.1.1, fun _ => ⟨hc.1.2, hc.2, hne⟩,
+      by simp [hsf], by simp [hne], by simp [pastSettle], fun _ _ c => hx c, by simp, by simp [decided], h14,
+      by simp [decided], h16, by simp, h18, h19, by simp [hk0]⟩
+  · rename_i hc
+    refine ⟨h1, h2, h3, fun hc => Or.inr (hcanc hc), h5, by simp, by simp,
+      by simp [hsf], by simp [hne], ?_, fun _ _ c => hx c, by simp, by simp [decided], h14,
+      by simp [decided], h16, by simp, h18, h19, by simp [hk0]⟩
+    intro hht _ hpd
+    left
+    show s.killIssued = true
+    have hht' : s.hasTimer = true := hht
+    have hpd' : s.processDone = true := hpd
+    cases hki : s.killIssued with
+    | true => rfl
+    | false => simp [hht', hpd', hki] at hc
 
 theorem timerInv_main (s : S) (h : TimerInv s) : TimerInv (mainStep s) := by
   have h' := h
-  obtain ⟨h1, h2, h3, h4, h5, h6, h7⟩ := h
+  obtain ⟨h1, h2, h3, h4, h5, h6, h7, h8, h9, h10, h11, h12, h13, h14, h15, h16, h17, h18, h19, h20⟩ := h
   by_cases hd : s.mainPc = .done
   · unfold mainStep; simp only [hd]; exact h'
   have hsf : s.startFails = false := by
     cases hx : s.startFails with
     | false => rfl
-    | true => exact absurd (h5 hx) hd
-  have hnc : s.tmPc ≠ .cancelled := fun hc => hd (h2 hc)
+    | true => exact absurd (h8 hx) hd
+  have hk0 : s.killsAfterReturn = 0 := by
+    rcases Nat.eq_zero_or_pos s.killsAfterReturn with h | h
+    · exact h
+    · exact absurd (h20 h) hd
+  have hcanc : s.tmPc = .cancelled → s.early = true := fun hc => (h4 hc).resolve_left hd
   unfold mainStep
   split
-  · split
-    · exact ⟨h1, fun hc => absurd hc hnc, h3, by simp, by simp [hsf], h6, h7⟩
-    · exact ⟨h1, fun hc => absurd hc hnc, h3, by simp, by simp [hsf], h6, h7⟩
-  · exact ⟨h1, fun hc => absurd hc hnc, h3, by simp, by simp [hsf], h6, h7⟩
-  · split
-    · exact ⟨h1, fun hc => absurd hc hnc, h3, by simp, by simp [hsf], h6, h7⟩
-    · exact ⟨h1, fun hc => absurd hc hnc, h3, by simp, by simp [hsf], h6, h7⟩
-  · apply enterJoin_timer
-    · exact ⟨h1, h2, h3, h4, h5, h6, h7⟩
-    · simpa using hd
-  · split
-    · exact afterJoins_timer s h' hd
+  · -- poll
+    rename_i hpc
+    have hne : s.early = false := by
+      cases hx : s.early with
+      | false => rfl
+      | true => have := (h9 hx).1; simp [hpc, pastSettle] at this
+    split
+    · exact ⟨h1, h2, h3, fun hc => Or.inr (hcanc hc), h5, by simp, by simp, by simp [hsf],
+        by simp [hne], by simp [pastSettle], by simp [pastWait], by simp, by simp [decided], h14,
+        by simp [decided], h16, by simp, h18, h19, by simp [hk0]⟩
+    · exact ⟨h1, h2, h3, fun hc => Or.inr (hcanc hc), h5, by simp, by simp, by simp [hsf],
+        by simp [hne], by simp [pastSettle], by simp [pastWait], by simp, by simp [decided], h14,
+        by simp [decided], h16, by simp, h18, h19, by simp [hk0]⟩
+  · -- sendIntr
+    rename_i hpc
+    have hne : s.early = false := by
+      cases hx : s.early with
+      | false => rfl
+      | true => have := (h9 hx).1; simp [hpc, pastSettle] at this
+    exact ⟨h1, h2, h3, fun hc => Or.inr (hcanc hc), h5, by simp, by simp, by simp [hsf],
+      by simp [hne], by simp [pastSettle], by simp [pastWait], by simp, by simp [decided], h14,
+      by simp [decided], h16, by simp, h18, h19, by simp [hk0]⟩
+  · -- pollDead
+    rename_i fin hpc
+    have hne : s.early = false := by
+      cases hx : s.early with
+      | false => rfl
+      | true => have := (h9 hx).1; simp [hpc, pastSettle] at this
+    have hfx : fin = true → s.exited = true := fun hf => h17 (by rw [hpc, hf])
+    split
+    · rename_i hleave
+      apply leaveWait_timer _ fin
+      · refine ⟨h1, h2, ?_, h4, h5, h6, by simp [hpc], h8, by simp [hne], by simp [hpc, pastSettle],
+          by simp [hpc, pastWait], by simp [hpc], by simp [hpc, decided], h14, h15, ?_, h17, h18, h19, h20⟩
+        · intro hk; simp [h3 hk]
+        · intro hpd
+          simp only [Bool.or_eq_true] at hpd
+          rcases hpd with hpd | hpd
+          · exact h16 hpd
+          · exact hfx hpd
+      · exact hpc
+      · intro hpd
+        simp only [Bool.or_eq_false_iff] at hpd
+        simpa [hpd.2, S.anyDead] using hleave
+    · exact ⟨h1, h2, h3, fun hc => Or.inr (hcanc hc), h5, by simp, by simp, by simp [hsf],
+        by simp [hne], by simp [pastSettle], by simp [pastWait], by simp, by simp [decided], h14,
+        by simp [decided], h16, by simp, h18, h19, by simp [hk0]⟩
+  · -- settleCheck
+    rename_i hpc
+    obtain ⟨s1, s2, s3⟩ := h7 (Or.inl hpc)
+    have hht := h6 (Or.inl hpc)
+    split
+    · exact ⟨h1, h2, h3, fun hc => Or.inr (hcanc hc), h5, fun _ => hht, fun _ => ⟨s1, s2, s3⟩, by simp [hsf],
+        by simp [s3], by simp [pastSettle], by simp [s1], by simp, by simp [decided], h14,
+        by simp [decided], h16, by simp, h18, h19, by simp [hk0]⟩
+    · rename_i hc
+      -- the timer is not alive and no kill was skipped: impossible
+      exfalso
+      simp only [Bool.or_eq_true, not_or, Bool.not_eq_true] at hc
+      have hfire := h2
+      rw [s2, hc.2] at hfire
+      cases ht : s.tmPc with
+      | none => have := h5.1 ht; simp [hht, hsf] at this
+      | cancelled => have := hcanc ht; simp [s3] at this
+      | armed => simp [ht, timerAlive] at hc
+      | kill => simp [ht, timerAlive] at hc
+      | finish => simp [ht, timerAlive] at hc
+      | done => simp [ht, timerFired] at hfire
+  · -- settleCancel
+    rename_i hpc
+    obtain ⟨s1, s2, s3⟩ := h7 (Or.inr hpc)
+    have hht := h6 (Or.inr (Or.inl hpc))
+    refine ⟨h1, ?_, h3, fun _ => Or.inr rfl, ?_, by simp, by simp, by simp [hsf],
+        fun _ => ⟨rfl, s1, s2⟩, fun _ _ _ => Or.inr rfl, by simp [s1], by simp, by simp [decided], h14,
+        by simp [decided], h16, by simp, h18, h19, by simp [hk0]⟩
     · split
-      · exact enterJoin_timer s _ h' hd
+      · rename_i ha; simpa [timerFired, ha] using h2
+      · exact h2
+    · split
+      · rename_i ha; have := h5; simp [ha] at this ⊢; exact this
+      · exact h5
+  · -- setFin
+    rename_i hpc
+    apply enterJoin_timer
+    · exact ⟨h1, h2, h3, h4, h5, h6, h7, h8, h9, h10, h11, h12, h13, h14, h15, h16, h17, h18, h19, h20⟩
+    · simp [hpc, joining]
+  · -- join
+    rename_i hpc
+    have hj : joining s.mainPc = true := by simp [hpc, joining]
+    split
+    · exact afterJoins_timer s h' hj
+    · split
+      · exact enterJoin_timer s _ h' hj
       · split
-        · exact enterJoin_timer s _ h' hd
-        · exact ⟨h1, fun hc => absurd hc hnc, h3, by simp, by simp [hsf], h6, h7⟩
-  · rename_i hck
-    refine ⟨h1, fun hc => absurd hc hnc, h3, by simp, by simp [hsf], ?_, h7⟩
-    intro rc hrc
-    simp only [decideOutcome] at hrc
-    have hht := h4 hck
-    cases ht : s.tmPc with
-    | done => rfl
-    | cancelled => exact absurd ht hnc
-    | none => have := h3.1 ht; simp [hht, hsf] at this
-    | armed => simp [ht, timerAlive] at hrc; split at hrc <;> simp at hrc
-    | kill => simp [ht, timerAlive] at hrc; split at hrc <;> simp at hrc
-    | finish => simp [ht, timerAlive] at hrc; split at hrc <;> simp at hrc
-  · refine ⟨?_, ?_, ?_, by simp, by simp, ?_, h7⟩
+        · exact enterJoin_timer s _ h' hj
+        · obtain ⟨j1, j2, j3, j4, j5, j6, j7⟩ := joining_facts hj
+          exact ⟨h1, h2, h3, fun hc => Or.inr (hcanc hc), h5, by simp, by simp, by simp [hsf],
+            fun he => ⟨rfl, (h9 he).2⟩, fun a _ c => h10 a j2 c, fun _ _ c => h11 hsf j1 c, by simp,
+            by simp [decided], h14, by simp [decided], h16, by simp, h18, h19, by simp [hk0]⟩
+  · -- checkTimeout
+    rename_i hpc
+    obtain ⟨c1, c2⟩ := h12 hpc
+    have hht := h6 (Or.inr (Or.inr hpc))
+    have hearly : s.early = true := by
+      rcases h10 hht (by simp [hpc, pastSettle]) c2 with h | h
+      · simp [c1] at h
+      · exact h
+    have hb : (!timerAlive s.tmPc && !s.early) = false := by simp [hearly]
+    rw [hb]
+    exact ⟨h1, h2, h3, fun hc => Or.inr (hcanc hc), h5, by simp, by simp, by simp [hsf],
+      fun he => ⟨rfl, (h9 he).2⟩, fun _ _ _ => Or.inr hearly, by simp [c2], by simp,
+      fun _ _ _ => c2, fun rc hrc => absurd hrc (decideOutcome_false_ne s rc), by simp [c1], h16, by simp, h18,
+      by simp [hk0], by simp [hk0]⟩
+  · -- stop
+    rename_i hpc
+    refine ⟨h1, ?_, h3, fun _ => Or.inl rfl, ?_, by simp, by simp, by simp,
+      fun he => ⟨rfl, (h9 he).2⟩, fun a _ c => h10 a (by simp [hpc, pastSettle]) c,
+      fun a _ c => h11 a (by simp [hpc, pastWait]) c, by simp,
+      fun _ a b => h13 (by simp [hpc, decided]) a b, h14, fun _ a => h15 (by simp [hpc, decided]) a, h16, by simp, h18,
+      h19, by simp⟩
     · split
-      · rename_i ha; simpa [timerFired, ha] using h1
-      · exact h1
-    · intro _; rfl
+      · rename_i ha; simpa [timerFired, ha] using h2
+      · exact h2
     · split
-      · rename_i ha; have := h3; simp [ha] at this ⊢; exact this
-      · exact h3
-    · intro rc hrc
-      have := h6 rc hrc
-      simp [this]
+      · rename_i ha; have := h5; simp [ha] at this ⊢; exact this
+      · exact h5
   · exact absurd (by assumption) hd
 
 theorem timerInv_step (s : S) (a : Actor) (h : TimerInv s) : TimerInv (step s a) := by
@@ -152,10 +400,8 @@ theorem timerInv_step (s : S) (a : Actor) (h : TimerInv s) : TimerInv (step s a)
   | main => exact timerInv_main s h
   | stdin => exact timerInv_stdin s h
   | timer => exact timerInv_timer s h
-  | out => obtain ⟨h1, h2, h3, h4, h5, h6, h7⟩ := h; exact ⟨h1, h2, h3, h4, h5, h6, h7⟩
-  | err =>
-    obtain ⟨h1, h2, h3, h4, h5, h6, h7⟩ := h
-    simp only [step]; split <;> exact ⟨h1, h2, h3, h4, h5, h6, h7⟩
+  | out => exact timerInv_reader_out s h
+  | err => exact timerInv_reader_err s h
 
 theorem timerInv_run (s : S) (evs : List Ev) (h : TimerInv s) : TimerInv (run s evs) := by
   induction evs generalizing s with
@@ -169,6 +415,249 @@ theorem timerInv_run (s : S) (evs : List Ev) (h : TimerInv s) : TimerInv (run s 
 
 theorem timerInv_init (hi ht w p e : Bool) (o er : List Chunk) (ins : List InItem) (ho sf : Bool) (n : Nat) :
     TimerInv (S.init hi ht w p e o er ins ho sf n) := by
-  cases ht <;> cases sf <;> refine ⟨?_, ?_, ?_, ?_, ?_, ?_, ?_⟩ <;> simp [S.init, timerFired]
+  cases ht <;> cases sf <;> constructor <;> simp [S.init, timerFired, pastWait, pastSettle, decided]
+
+/-! ### the command seen to have finished in time: stability -/
+
+/-- "the main thread saw the subprocess ended before any kill was issued" -/
+def Timely (s : S) : Prop := s.processDone = true ∧ s.killIssued = false
+
+theorem timely_env (s : S) (e : EnvAct) (h : Timely s) : Timely (envStep s e) := by
+  cases e <;> simp only [envStep] <;> (try split) <;> exact h
+
+theorem timely_step (s : S) (a : Actor) (h : Timely s) : Timely (step s a) := by
+  obtain ⟨h1, h2⟩ := h
+  cases a with
+  | out => exact ⟨h1, h2⟩
+  | err => simp only [step]; split <;> exact ⟨h1, h2⟩
+  | stdin => simp only [step]; unfold stdinStep; (repeat' split) <;> exact ⟨h1, h2⟩
+  | timer =>
+    simp only [step]; unfold timerStep
+    split
+    · exact ⟨h1, h2⟩
+    · split
+      · exact ⟨h1, h2⟩
+      · first
+        | exact ⟨h1, h2⟩
+        | (split
+           · exact ⟨h1, h2⟩
+           · rename_i hn; exact absurd h1 hn)
+      · exact ⟨h1, h2⟩
+      · exact ⟨h1, h2⟩
+  | main =>
+    simp only [step, Timely]
+    unfold mainStep nextJoin enterJoin afterJoins leaveWait
+    cases s.mainPc <;> simp only [] <;> (repeat' split) <;> simp_all
+
+theorem timely_run (s : S) (evs : List Ev) (h : Timely s) : Timely (run s evs) := by
+  induction evs generalizing s with
+  | nil => exact h
+  | cons e r ih =>
+    simp only [run, List.foldl_cons] at ih ⊢
+    apply ih
+    cases e with
+    | act a => exact timely_step s a h
+    | env e => exact timely_env s e h
+
+/-- once the subprocess has been seen ended, its exit status never changes again -/
+theorem rc_frozen_step (s : S) (e : Ev) (hx : s.exited = true) : (evStep s e).rc = s.rc ∧ (evStep s e).exited = true := by
+  cases e with
+  | env e => cases e <;> simp only [evStep, envStep] <;> (try split) <;> simp_all
+  | act a =>
+    cases a with
+    | out => exact ⟨rfl, hx⟩
+    | err => simp only [evStep, step]; split <;> exact ⟨rfl, hx⟩
+    | stdin => simp only [evStep, step]; unfold stdinStep; (repeat' split) <;> exact ⟨rfl, hx⟩
+    | timer =>
+      simp only [evStep, step]; unfold timerStep killEffect
+      (repeat' split) <;> simp_all
+    | main =>
+      simp only [evStep, step]
+      unfold mainStep nextJoin enterJoin afterJoins leaveWait
+      cases s.mainPc <;> simp only [] <;> (repeat' split) <;> simp_all
+
+theorem rc_frozen_run (s : S) (evs : List Ev) (hx : s.exited = true) : (run s evs).rc = s.rc ∧ (run s evs).exited = true := by
+  induction evs generalizing s with
+  | nil => exact ⟨rfl, hx⟩
+  | cons e r ih =>
+    simp only [run, List.foldl_cons] at ih ⊢
+    obtain ⟨k1, k2⟩ := rc_frozen_step s e hx
+    obtain ⟨i1, i2⟩ := ih (evStep s e) k2
+    exact ⟨by rw [i1, k1], i2⟩
+
+/-! ### the shape of the outcome once `_finish` has decided -/
+
+def OutcomeShape (s : S) : Prop :=
+  decided s.mainPc = true → s.startFails = false →
+    s.outcome = .threadExc ∨ (∃ rc, s.outcome = .timedOut rc) ∨ s.outcome = decideOutcome s false
+
+theorem decideOutcome_congr (s t : S) (b : Bool) (h1 : t.rc = s.rc) (h2 : t.warn = s.warn) :
+    decideOutcome t b = decideOutcome s b := by
+  simp [decideOutcome, h1, h2]
+
+theorem decideOutcome_false_ne_exc (s : S) : decideOutcome s false ≠ .threadExc := by
+  unfold decideOutcome; simp only [Bool.false_eq_true, if_false]; split <;> simp
+
+theorem decideOutcome_cases (s : S) (b : Bool) :
+    (∃ rc, decideOutcome s b = .timedOut rc) ∨ decideOutcome s b = decideOutcome s false := by
+  cases b with
+  | false => exact Or.inr rfl
+  | true => exact Or.inl ⟨s.rc, decideOutcome_true s⟩
+
+theorem main_decides (s : S) (hnd : decided s.mainPc = false) (hd : decided (mainStep s).mainPc = true) :
+    (mainStep s).outcome = .threadExc ∨ (∃ rc, (mainStep s).outcome = .timedOut rc) ∨
+    (mainStep s).outcome = decideOutcome (mainStep s) false := by
+  revert hd
+  unfold mainStep nextJoin enterJoin afterJoins leaveWait
+  cases hpc : s.mainPc <;> simp only [] <;> (repeat' split) <;>
+    simp_all [decided, decideOutcome]
+  by_cases hb : timerAlive s.tmPc = false ∧ s.early = false
+  · simp [hb]
+  · right; right; intro h1 h2; exact absurd ⟨h1, h2⟩ hb
+
+theorem decided_frame (s : S) (e : Ev) (hd : decided s.mainPc = true) :
+    (evStep s e).outcome = s.outcome ∧ decided (evStep s e).mainPc = true ∧ (evStep s e).warn = s.warn ∧
+    (evStep s e).startFails = s.startFails := by
+  cases e with
+  | env e => cases e <;> simp only [evStep, envStep] <;> (try split) <;> simp_all
+  | act a =>
+    cases a with
+    | out => exact ⟨rfl, hd, rfl, rfl⟩
+    | err => simp only [evStep, step]; split <;> exact ⟨rfl, hd, rfl, rfl⟩
+    | stdin => simp only [evStep, step]; unfold stdinStep; (repeat' split) <;> exact ⟨rfl, hd, rfl, rfl⟩
+    | timer =>
+      simp only [evStep, step]; unfold timerStep killEffect
+      (repeat' split) <;> simp_all
+    | main =>
+      simp only [evStep, step]
+      unfold mainStep
+      cases hpc : s.mainPc <;> simp_all [decided]
+
+theorem undecided_stays (s : S) (e : Ev) (hnd : decided s.mainPc = false) (hd : decided (evStep s e).mainPc = true) :
+    e = .act .main := by
+  cases e with
+  | env e => exfalso; cases e <;> simp only [evStep, envStep] at hd <;> (try split at hd) <;> simp_all
+  | act a =>
+    cases a with
+    | main => rfl
+    | out => exfalso; simp [evStep, step, hnd] at hd
+    | err => exfalso; simp only [evStep, step] at hd; split at hd <;> simp_all
+    | stdin =>
+      exfalso; simp only [evStep, step] at hd; unfold stdinStep at hd
+      (repeat' split at hd) <;> simp_all
+    | timer =>
+      exfalso; simp only [evStep, step] at hd; unfold timerStep killEffect at hd
+      (repeat' split at hd) <;> simp_all
+
+theorem outcomeShape_ev (s : S) (e : Ev) (ht : TimerInv s) (h : OutcomeShape s) : OutcomeShape (evStep s e) := by
+  intro hd' hsf'
+  by_cases hdec : decided s.mainPc = true
+  · -- already decided: nothing that matters changes unless the outcome is the worker failure
+    obtain ⟨f1, f2, f3, f4⟩ := decided_frame s e hdec
+    have hsf : s.startFails = false := by rw [← f4]; exact hsf'
+    rw [f1]
+    rcases h hdec hsf with h | h | h
+    · exact Or.inl h
+    · exact Or.inr (Or.inl h)
+    · right; right
+      have hne : s.outcome ≠ .threadExc := by rw [h]; exact decideOutcome_false_ne_exc s
+      have hx := ht.doneExited (ht.decidedDone hdec hsf hne)
+      rw [h]; exact (decideOutcome_congr s (evStep s e) false (rc_frozen_step s e hx).1 f3).symm
+  · have hnd : decided s.mainPc = false := by simpa using hdec
+    have he := undecided_stays s e hnd hd'
+    subst he
+    exact main_decides s hnd hd'
+
+theorem outcomeShape_run (s : S) (evs : List Ev) (ht : TimerInv s) (h : OutcomeShape s) : OutcomeShape (run s evs) := by
+  induction evs generalizing s with
+  | nil => exact h
+  | cons e r ih =>
+    simp only [run, List.foldl_cons] at ih ⊢
+    apply ih
+    · cases e with
+      | act a => exact timerInv_step s a ht
+      | env e => exact timerInv_env s e ht
+    · exact outcomeShape_ev s e ht h
+
+theorem outcomeShape_init (hi ht w p e : Bool) (o er : List Chunk) (ins : List InItem) (ho sf : Bool) (n : Nat) :
+    OutcomeShape (S.init hi ht w p e o er ins ho sf n) := by
+  intro hd hsf
+  cases sf <;> simp_all [S.init, decided]
+
+/-- an issued kill ends the command: `killIssued → exited` along every schedule -/
+theorem killed_exited_ev (s : S) (e : Ev) (h : s.killIssued = true → s.exited = true) :
+    (evStep s e).killIssued = true → (evStep s e).exited = true := by
+  cases hx : s.exited with
+  | true => intro _; exact (rc_frozen_step s e hx).2
+  | false =>
+    have hk : s.killIssued = false := by
+      cases hk : s.killIssued with
+      | false => rfl
+      | true => simp [h hk] at hx
+    cases e with
+    | env e => cases e <;> simp only [evStep, envStep] <;> (try split) <;> simp_all
+    | act a =>
+      cases a with
+      | out => simp [evStep, step, hk]
+      | err => simp only [evStep, step]; split <;> simp [hk]
+      | stdin => simp only [evStep, step]; unfold stdinStep; (repeat' split) <;> simp [hk]
+      | timer =>
+        simp only [evStep, step]; unfold timerStep killEffect
+        (repeat' split) <;> simp_all
+      | main =>
+        simp only [evStep, step]
+        unfold mainStep nextJoin enterJoin afterJoins leaveWait
+        cases s.mainPc <;> simp only [] <;> (repeat' split) <;> simp_all
+
+theorem killed_exited_run (s : S) (evs : List Ev) (h : s.killIssued = true → s.exited = true) :
+    (run s evs).killIssued = true → (run s evs).exited = true := by
+  induction evs generalizing s with
+  | nil => exact h
+  | cons e r ih =>
+    simp only [run, List.foldl_cons] at ih ⊢
+    exact ih (evStep s e) (killed_exited_ev s e h)
+
+/-- a failed start never enters the wait loop, so it never "sees the subprocess end" -/
+def SfInv (s : S) : Prop := s.startFails = true → s.processDone = false
+
+theorem sfInv_ev (s : S) (e : Ev) (ht : TimerInv s) (h : SfInv s) : SfInv (evStep s e) := by
+  intro hsf'
+  have ho : (evStep s e).opts = s.opts := by
+    cases e with
+    | act a => exact opts_step s a
+    | env e => exact opts_env s e
+  simp only [S.opts, Prod.mk.injEq] at ho
+  have hsf : s.startFails = true := by rw [← ho.2.2.2.2.2.2.1]; exact hsf'
+  have hd := ht.startFailsDone hsf
+  have hp := h hsf
+  cases e with
+  | env e => cases e <;> simp only [evStep, envStep] <;> (try split) <;> exact hp
+  | act a =>
+    cases a with
+    | out => exact hp
+    | err => simp only [evStep, step]; split <;> exact hp
+    | stdin => simp only [evStep, step]; unfold stdinStep; (repeat' split) <;> exact hp
+    | timer =>
+      simp only [evStep, step]; unfold timerStep killEffect
+      (repeat' split) <;> simp_all
+    | main => simp only [evStep, step]; unfold mainStep; simp only [hd]; exact hp
+
+theorem startFails_never_done (hi ht w p e : Bool) (o er : List Chunk) (ins : List InItem) (ho sf : Bool) (n : Nat)
+    (evs : List Ev) (h1 : (run (S.init hi ht w p e o er ins ho sf n) evs).startFails = true)
+    (h2 : (run (S.init hi ht w p e o er ins ho sf n) evs).processDone = true) : False := by
+  have key : ∀ (s : S) (evs : List Ev), TimerInv s → SfInv s → SfInv (run s evs) := by
+    intro s evs
+    induction evs generalizing s with
+    | nil => intro _ h; exact h
+    | cons e r ih =>
+      intro ht h
+      simp only [run, List.foldl_cons] at ih ⊢
+      apply ih
+      · cases e with
+        | act a => exact timerInv_step s a ht
+        | env e => exact timerInv_env s e ht
+      · exact sfInv_ev s e ht h
+  have := key _ evs (timerInv_init hi ht w p e o er ins ho sf n) (by intro _; simp [S.init]) h1
+  rw [h2] at this; cases this
 
 end Inv
